@@ -1174,6 +1174,10 @@ func (sc *serverConn) handleFrame(strm *Stream, fr *FrameHeader) error {
 		strm.recvBody += len(data)
 
 		if sc.maxRequestBodySize > 0 && strm.recvBody > sc.maxRequestBodySize {
+			// The frame is dropped, but it did use the connection window, and
+			// that is shared with every other stream: give it back.
+			sc.consumeConnWindow(fr.Len())
+
 			return NewResetStreamError(EnhanceYourCalm, "request body is too large")
 		}
 
